@@ -31,6 +31,11 @@ import Pyunicorn.Model.VisibilityScale
   then the float32 natural kernels return on `x·2^a`, `t·2^c` what they return on `x`, `t`)
 * `nvgRs N x t a c`, `nvgRs_mv N x t a c mv` — round 5: `kernelNR rndF32` on the series rescaled
   *inside the model* (`scaleVals a x`, `scaleTimes c t`)
+* `matR x t|- missing horizontal` — round 5: the adjacency matrix of the constructor **in FIELD
+  arithmetic** (`classLogR rndF32`: conversion of series and timings to binary32, `np.arange(N,
+  dtype=FIELD)`, then the float kernels)
+* `faithfulc x t|-` — round 5: `1` iff `FaithfulConv rndF32 x timings` (the stored data are
+  order-faithful: then `class_f32_is_exact_on_stored_data` applies)
 -/
 open Pyunicorn Pyunicorn.Proto Pyunicorn.Visibility
 
@@ -113,6 +118,12 @@ def answer (toks : List String) : String :=
         join [showRats (r.map (retBetw N A)), showRats (r.map (advBetw N A)),
               showRats (r.map (transBetw N A)), showRats (r.map (retBetwSpec N A)),
               showRats (r.map (advBetwSpec N A)), showRats (r.map (transBetwSpec N A))] "|"
+  | ["matR", x, t, mis, hor] =>
+      showLog (vals x).length (classLogR rndF32 (vals x) (if t == "-" then none else some (rats t))
+        (mis == "1") (hor == "1"))
+  | ["faithfulc", x, t] =>
+      if decide (FaithfulConv rndF32 (vals x) (if t == "-" then none else some (rats t)))
+        then "1" else "0"
   | ["mat", x, t, mis, hor] =>
       showMat (classMat (vals x) (if t == "-" then none else some (rats t)) (mis == "1") (hor == "1"))
   | [c, x, t, mis, hor] =>
